@@ -64,6 +64,57 @@ template <class Policy> static void seq_run(std::vector<i128>& c, Out& o) {
     o.word("MAXRUN"); o.put(ctl.maxrun.load()); o.word("FIN"); o.put(accepted); o.put(ctl.nfinished.load()); o.word("WAITEARLY"); o.put(early);
 }
 
+// pullseq: queue_node -> limited REJECTING function_node with bodies that block until the script releases them.  ops: 1 v = put v into the queue,
+// 2 0 = release the oldest running body.  After every op the graph is left to settle (registration of the queue as predecessor, forwarder task)
+// and the white-box state is dumped: my_concurrency, items in the queue, queue registered as predecessor?, forwarder_busy, bodies started.
+static void pull_run(std::vector<i128>& c, Out& o) {
+    size_t maxc = (size_t)c[0];
+    graph g; Ctl ctl;
+    queue_node<long> Q(g);
+    function_node<long, long, rejecting> f(g, maxc, [&](long v) -> long {
+        size_t idx;
+        { std::lock_guard<std::mutex> l(ctl.m); idx = ctl.started.size(); ctl.started.push_back(v); ctl.released.push_back(0); }
+        ctl.nstarted++;
+        for (;;) { { std::lock_guard<std::mutex> l(ctl.m); if (ctl.released[idx]) break; } std::this_thread::yield(); }
+        ctl.nfinished++;
+        return v;
+    });
+    make_edge(Q, f);
+    auto& base = (typename function_node<long, long, rejecting>::input_impl_type&)f;
+    auto settle = [&] {
+        int stable = 0;
+        for (int i = 0; i < 4000 && stable < 4; ++i) {
+            std::this_thread::sleep_for(std::chrono::microseconds(150));
+            bool quiet = ctl.nstarted.load() - ctl.nfinished.load() == (long)base.my_concurrency && !base.forwarder_busy;
+            stable = quiet ? stable + 1 : 0;
+        }
+    };
+    size_t next_release = 0;
+    for (size_t i = 1; i + 1 < c.size(); i += 2) {
+        int op = (int)c[i]; long v = (long)c[i + 1];
+        if (op == 1) Q.try_put(v);
+        else {
+            bool any = false;
+            { std::lock_guard<std::mutex> l(ctl.m); if (next_release < ctl.released.size()) { ctl.released[next_release++] = 1; any = true; } }
+            if (any) { long want = (long)next_release; for (int k = 0; k < 20000 && ctl.nfinished.load() < want; ++k) std::this_thread::sleep_for(std::chrono::microseconds(100)); }
+        }
+        settle();
+        o.put((long)base.my_concurrency); o.put((long)Q.size()); o.put(base.my_predecessors.empty() ? 0 : 1); o.put(base.forwarder_busy ? 1 : 0); o.put(ctl.nstarted.load());
+    }
+    o.put(-7);
+    { std::lock_guard<std::mutex> l(ctl.m); for (long v : ctl.started) o.put(v); }
+    // let everything finish
+    std::atomic<int> waited{0};
+    std::thread w([&] { g.wait_for_all(); waited = 1; });
+    for (int guard = 0; guard < 100000 && !waited.load(); ++guard) {
+        { std::lock_guard<std::mutex> l(ctl.m); for (auto& r : ctl.released) r = 1; }
+        std::this_thread::sleep_for(std::chrono::microseconds(100));
+    }
+    w.join();
+    long left = 0; long tmp; while (Q.try_get(tmp)) left++;
+    o.word("LEFT"); o.put(left);
+}
+
 static int mt_run(int P, unsigned seed, int n, int limit, int succ) {
     tbb::global_control gc(tbb::global_control::max_allowed_parallelism, P);
     graph g;
@@ -173,6 +224,12 @@ int main(int argc, char** argv) {
         tbb::global_control gc(tbb::global_control::max_allowed_parallelism, 12);
         std::vector<i128> c; Out o; Watchdog wd(60.0);
         while (read_case(c)) { wd.arm(&o); if (c[1] == 1) seq_run<queueing>(c, o); else seq_run<rejecting>(c, o); o.flush(); wd.disarm(); }
+        return 0;
+    }
+    if (mode == "pullseq") {
+        tbb::global_control gc(tbb::global_control::max_allowed_parallelism, 12);
+        std::vector<i128> c; Out o; Watchdog wd(60.0);
+        while (read_case(c)) { wd.arm(&o); pull_run(c, o); o.flush(); wd.disarm(); }
         return 0;
     }
     if (mode == "mtmix") return mtmix_run(atoi(argv[2]), (unsigned)atoi(argv[3]), atoi(argv[4]), atoi(argv[5]), atoi(argv[6]));
